@@ -1,7 +1,7 @@
 #!/bin/bash
 # Offline setup: build every check once (warms GOCACHE with /repo's packages).
 set -u
-cd /verif
+cd "$(dirname "$(readlink -f "$0")")"
 export GOFLAGS=-mod=mod GOPROXY=off GOSUMDB=off GOTOOLCHAIN=local
 mkdir -p bin evidence replays
 cp -f /repo/go.sum go.sum.repo 2>/dev/null && cat go.sum.repo go.sum 2>/dev/null | sort -u > go.sum.new && mv go.sum.new go.sum; rm -f go.sum.repo
